@@ -84,6 +84,8 @@ def vec_script(events):
             if e["name"] == "CreateFrom":
                 lines.append("CreateFrom %d %s %d" % (e["c"], vc.fmt(e["src"]), e["b"]))
             else:
+                if e.get("inject") == "ctor": lines.append("Arm ctor %d" % e.get("injn", 1))
+                elif e.get("inject") == "alloc": lines.append("Arm alloc")
                 lines.append(" ".join([e["name"], str(e["c"])] + [str(e[k]) for k in ("a", "b")][:ARITY[e["name"]]]))
         elif e["e"] == "End":
             lines.append("End")
